@@ -137,7 +137,7 @@ def run(ctx):
                   "the challenge must be computed from the pre_verify-normalised (signature.R, key, message)", g.loc)
         if key.endswith("Item::<C>::new") and len(pv) == 1:
             # the queued item holds the same normalised key and signature the challenge was computed for
-            oks = [v.cx.operand(rv["ops"][0]) for (b, k, rv) in ret_writes(g) if k == "ok"]
+            oks = ok_values(g, v)
             pre = lambda k: (lambda t: t[0] == "field" and t[3] == str(k) and t[1][0] == "ok" and is_call(t[1][1], name="pre_verify"))
             good = len(oks) == 1 and pre(2)(get_field(oks[0], "vk")) and pre(1)(get_field(oks[0], "sig")) and \
                 get_field(oks[0], "c")[0] == "ok" and is_call(get_field(oks[0], "c")[1], name="challenge")
